@@ -157,6 +157,48 @@ def run(R):
     R.floor("C16.closure", 5)
     R.assume("std, chrono::DateTime<Local> and TimeDelta implement lawful, mutually consistent Eq/Ord/Hash")
     R.assume("derived impls over lawful field types are lawful (lexicographic by declaration order, variant index first)")
+    # no REAL -> INT conversion of a comparison operand (it saturates outside the i64 range and is not injective)
+    from . import arms as A
+    esw = A.enum_switches(ev, "model::ExpressionTree")
+    region = None
+    for sw in esw:
+        arms_, _, _ = A.arms(ev, sw)
+        if "Compare" in arms_:
+            region = arms_["Compare"][1]
+            break
+    if region is not None:
+        bad = []
+        for i, st in ev.stmts():
+            if i in region and st["rv"]["k"] == "cast" and st["rv"]["ck"] == "FloatToInt":
+                bad.append("%s:%d %s->%s" % (ev.file, st["line"], st["rv"]["from"], st["rv"]["to"]))
+        seen_f = set()
+        for c in ev.calls:
+            if c.bb not in region:
+                continue
+            for k2 in P.callee_keys(ev, c):
+                g2 = P.fns[k2]
+                if k2 == ev.key or k2 in seen_f or g2.derived or not g2.spath.startswith("sqlgrep::"):
+                    continue
+                seen_f.add(k2)
+                stack = [(g2, 1)]
+                while stack:
+                    g3, d3 = stack.pop()
+                    for i3, st3 in g3.stmts():
+                        if st3["rv"]["k"] == "cast" and st3["rv"]["ck"] == "FloatToInt":
+                            bad.append("%s:%d %s->%s in %s" % (g3.file, st3["line"], st3["rv"]["from"], st3["rv"]["to"], g3.spath.split("::")[-1]))
+                    if d3 > 0:
+                        for c3 in g3.calls:
+                            for k3 in P.callee_keys(g3, c3):
+                                if k3 not in seen_f and k3 != ev.key and P.fns[k3].spath.startswith("sqlgrep::") and not P.fns[k3].derived:
+                                    seen_f.add(k3)
+                                    stack.append((P.fns[k3], d3 - 1))
+        if bad:
+            R.violation("C16.numcmp", "evaluate|real-to-int", "a comparison operand is converted REAL -> INT (%s): the conversion saturates "
+                                                              "outside the i64 range, so distinct REALs compare equal to one INT and the order "
+                                                              "is no longer transitive" % bad[0], [bad[0].split(" ")[0]])
+        else:
+            R.ok("C16.numcmp", "evaluate|no-real-to-int", "no REAL -> INT conversion in the comparison arm or its helpers", ev.loc())
+    run_keys(R)
 
 
 def _check_float_type(R, P, a, ims, loc):
@@ -237,7 +279,6 @@ def _check_float_type(R, P, a, ims, loc):
             R.violation("C16.float", "%s|key|canonical" % a,
                         "key function %s does not canonicalise %s: total_cmp distinguishes -0.0/0.0 and NaN payloads, so numerically "
                         "equal values would be different keys" % (kn, "NaN" if not has_nan else "signed zero"), [kf.loc()])
-    run_keys(R)
 
 
 # ---- C16.key: the key handed to a hashed/ordered container is the value itself --------------------------------------------------------
